@@ -94,6 +94,12 @@ func (s *socket) send() {
 		// Schedule retransmission for the future.
 		c.lastPipe = p
 		if c.resendTime > 0 {
+			// Stop a retry timer that is still pending (we get here
+			// early when the carrying pipe closed), otherwise it would
+			// survive and retransmit ahead of the new interval.
+			if c.resendTimer != nil {
+				c.resendTimer.Stop()
+			}
 			id := c.reqID
 			c.resendTimer = time.AfterFunc(c.resendTime, func() {
 				c.resendMessage(id)
